@@ -208,7 +208,7 @@ Proof. intros Hg. eexists. apply x_hash_val. assumption. Qed.
 
 (* ------------------------------------------------------------------ C13: byte constructors *)
 
-Definition kind_ok (k : kind) : Prop := match k with KF w n => std_width w /\ 0 < n | _ => True end.
+Definition kind_ok (k : kind) : Prop := match k with KF w n => std_width w /\ 0 <= n | _ => True end.
 Definition bytes_ok (l : list N) : Prop := Forall (fun b => b < 256) l.
 
 Lemma abs_of_parts r len R : Canon r -> xlen r = len -> val r = R -> abs r = mkbv len R.
